@@ -31,15 +31,15 @@ SPEC("pane.converters", "data_is_mapping",
 
 # Converter.convert: proved from the body against the interface contract IConv of `self`
 SPEC("pane.converters", "Converter.convert",
-     returns_iff=(lambda self, val: acc(self, val), ["C03", "C01"]),
-     ensures=[(lambda self, val, result: result == out(self, val), ["C01", "C03"], "val")],
+     returns_iff=(lambda self, val: acc(self, val), ["C03", "C01", "C05", "C06"]),
+     ensures=[(lambda self, val, result: result == out(self, val), ["C01", "C03", "C05", "C06"], "val")],
      raises=(lambda self, val, exc: exc_is(exc, ConvertError) and exc.tree == err(self, val), ["C03", "C04", "C07"]))
 
 # ---------------------------------------------------------------------------------------------
 # AnyConverter
 SPEC("pane.converters", "AnyConverter.try_convert",
-     returns_iff=(lambda self, val: True, ["C01", "C03"]),
-     ensures=[(lambda self, val, result: result is val, ["C01"], "val")],
+     returns_iff=(lambda self, val: True, ["C01", "C03", "C05", "C06"]),
+     ensures=[(lambda self, val, result: result is val, ["C01", "C05", "C06"], "val")],
      raises=(lambda self, val, exc: exc_is(exc, ParseInterrupt), ["C04"]))
 
 SPEC("pane.converters", "AnyConverter.collect_errors",
@@ -49,8 +49,8 @@ SPEC("pane.converters", "AnyConverter.collect_errors",
 # ---------------------------------------------------------------------------------------------
 # NoneConverter: "None only where None is allowed"
 SPEC("pane.converters", "NoneConverter.try_convert",
-     returns_iff=(lambda self, val: val is None, ["C01", "C02", "C03"]),
-     ensures=[(lambda self, val, result: result is None, ["C01"], "val")],
+     returns_iff=(lambda self, val: val is None, ["C01", "C02", "C03", "C05", "C06"]),
+     ensures=[(lambda self, val, result: result is None, ["C01", "C05", "C06"], "val")],
      raises=(lambda self, val, exc: exc_is(exc, ParseInterrupt), ["C04"]))
 
 SPEC("pane.converters", "NoneConverter.collect_errors",
@@ -65,8 +65,8 @@ def ACC_Scalar(self, val):
 
 
 SPEC("pane.converters", "ScalarConverter.try_convert",
-     returns_iff=(lambda self, val: ACC_Scalar(self, val), ["C01", "C02", "C03"]),
-     ensures=[(lambda self, val, result: result == call(self.ty, val), ["C01"], "val")],
+     returns_iff=(lambda self, val: ACC_Scalar(self, val), ["C01", "C02", "C03", "C05", "C06"]),
+     ensures=[(lambda self, val, result: result == call(self.ty, val), ["C01", "C05", "C06"], "val")],
      raises=(lambda self, val, exc: exc_is(exc, ParseInterrupt), ["C04"]))
 
 SPEC("pane.converters", "ScalarConverter.collect_errors",
